@@ -210,7 +210,12 @@ class SupervisorNamespaceRPCInterface:
 
         for config in self.supervisord.options.process_group_configs:
             if config.name == name:
-                result = self.supervisord.add_process_group(config)
+                try:
+                    result = self.supervisord.add_process_group(config)
+                except ValueError as why:
+                    # the group could not be created (for instance the socket
+                    # of an fcgi-program cannot be bound)
+                    raise RPCError(Faults.FAILED, '%s: %s' % (name, why))
                 if not result:
                     raise RPCError(Faults.ALREADY_ADDED, name)
                 return True
